@@ -8,7 +8,7 @@ VE=${EVAL_VERIF:-/tmp/verif-eval}
 TIER=${EVAL_TIER:-quick}
 if [ ! -d "$WT" ]; then git -C /repo worktree add -q --detach "$WT" HEAD; fi
 git -C "$WT" checkout -q --detach "$(git -C /repo rev-parse HEAD)" 2>/dev/null
-git -C "$WT" reset -q --hard && git -C "$WT" clean -fdq
+git -C "$WT" reset -q --hard && git -C "$WT" clean -fdq; rm -f /tmp/apply-$$.log
 # pending (uncommitted) changes of /repo are part of the tree under evaluation
 git -C /repo diff > /tmp/pending-$$.diff
 if [ -s /tmp/pending-$$.diff ]; then git -C "$WT" apply /tmp/pending-$$.diff || { echo "cannot apply pending /repo diff"; exit 3; }; fi
@@ -25,4 +25,4 @@ for P in "$@"; do
   out=$(VERIF_DIR="$VE" VERIF_REPO="$WT" "$VE/run.sh" "$P" "$TIER" 2>&1); rc=$?
   echo "== $P rc=$rc"; echo "$out" | grep -E "VIOLATION|kind=|KNOWN|BUILD|MACHINERY|^C[0-9]+ " | cut -c1-260 | head -8
 done
-git -C "$WT" reset -q --hard && git -C "$WT" clean -fdq
+git -C "$WT" reset -q --hard && git -C "$WT" clean -fdq; rm -f /tmp/apply-$$.log
